@@ -53,6 +53,17 @@ def jobs(tier):
         out.append(("v%d.after-failed-edit" % version, "job", dict(version=version, req=0, route="magnet", failed_edit=True)))
     if tier != "quick":
         out.append(("v3.noncanonical-info", "job", dict(version=3, req=0, route="magnet", shuffle=True)))
+        # the full product of version x request x route x layout flags x history
+        import itertools
+        seen = {j[0] for j in out}
+        for version in (1, 2, 3):
+            reqs = {1: [0, 1], 2: [0, 2], 3: [0, 1, 2, 3]}[version]
+            for req, route, ws_string, shuffle, hist in itertools.product(reqs, ("magnet", "cli", "cli-v"), (False, True), (False, True),
+                                                                           ("none", "warmup", "failed-edit")):
+                label = "x.v%d.req%d.%s%s%s.%s" % (version, req, route, ".wsstr" if ws_string else "", ".shuffled" if shuffle else "", hist)
+                if label not in seen:
+                    out.append((label, "job", dict(version=version, req=req, route=route, ws_string=ws_string, shuffle=shuffle,
+                                                   warmup=hist == "warmup", failed_edit=hist == "failed-edit")))
     return out
 
 
